@@ -7,7 +7,7 @@ CLIENT = "internal/client"
 UM = "internal/server/usermanager"
 
 CHECKS = {}
-HOOK_COMMITS = ["b1f260a"]
+HOOK_COMMITS = ["b1f260a", "4c58a0f"]
 NOT_APPLICABLE = {}
 
 CHECKS["C04"] = {
@@ -200,5 +200,19 @@ CHECKS["C10"] = {
     "assumptions": ["tlsref.go implements RFC 8446 framing correctly"],
     "jobs": [
         {"pkg": SERVER, "run": "^TestVerif_C10_Wire$", "checks": {"quick": 150, "thorough": 10000}, "shards": {"thorough": 16}, "timeout": {"quick": 600}},
+    ],
+}
+
+CHECKS["C08"] = {
+    "level": "exploration",
+    "technique": "rapid-generated presentation histories (new / verbatim replay / key-less altered copy / N concurrent presentations / clock advance) against one server State whose replay-cache cleaner runs on the synctest virtual clock; history invariant: at most one acceptance per sealed identity block",
+    "level_text": "Genuine first packets are captured from the real client transports (direct ClientHello for three browser signatures, WebSocket GET through a TLS shim); histories place replays and altered copies (top bit of the ephemeral key, other unauthenticated bytes) at generated times, in particular just before and after the 12 h clean-ups while the packet's timestamp is still inside the 180 s window; any second acceptance is a violation.",
+    "level_note": "The set of key-less alterations is a fixed list (bit 255 of the ephemeral public key, a cipher-suite byte / extra HTTP header, the server name / request path); goroutine schedules of concurrent presentations are the runtime's.",
+    "rule": "rapid draws 2..30 ops; advances from 1 s..179 s, {181 s, 359 s, 361 s, 1 h, 12 h} and starts 1..170 s before a multiple of 12 h; non-trivial = a replay presented after >=1 cleaner run while the timestamp is still in the window, or an altered copy presented inside the window; distinct = distinct scenarios.",
+    "assumptions": ["X25519 public keys are equivalent up to bit 255 (RFC 7748)"],
+    "jobs": [
+        {"pkg": SERVER, "run": "^TestVerif_C08_Replay$", "checks": {"quick": 800, "thorough": 100000}, "shards": {"thorough": 16}, "timeout": {"quick": 600}},
+        {"pkg": SERVER, "run": "^TestVerif_C08_TestAndSet$", "checks": {"quick": 10, "thorough": 200}, "timeout": {"quick": 600}},
+        {"pkg": SERVER, "run": "^TestVerif_C08_Concurrent$", "checks": {"quick": 25, "thorough": 1500}, "shards": {"thorough": 2}, "timeout": {"quick": 600}},
     ],
 }
